@@ -8,6 +8,7 @@ func init() {
 	vRegister("H_C03_ProbeCursor", H_C03_ProbeCursor)
 	vRegister("H_C03_Detect", H_C03_Detect)
 	vRegister("H_C04_PingAck", H_C04_PingAck)
+	vRegister("H_C04_TruthfulSelfAlive", H_C04_TruthfulSelfAlive)
 }
 
 // vProbeTarget runs one probe() tick with a transport that fails fast and returns who was pinged ("" = nobody).
@@ -225,4 +226,34 @@ func H_C04_PingAck() {
 	m.ingestPacket(buf2.Bytes(), vAddr("10.0.0.9:7000"), vNow())
 	vAssert(len(f.tr.packets) == 1, "c04.ping.foreign-name-ignored")
 	vCover("c04.ping")
+}
+
+// C04 lemma: the only messages about a node that a healthy cluster carries are the node's own announcements,
+// current or older. Neither may cost it health, raise its incarnation or be answered.
+func H_C04_TruthfulSelfAlive() {
+	conf := vBaseConfig()
+	f := vNewML(conf)
+	m := f.m
+	inc := vU32()
+	vAssume(inc >= 1 && inc < 0xFFFFFFF0)
+	me := f.vAddSelf(inc, vBytes(vPick(2)))
+	f.vAddConcreteAlive(vPeerA, 2)
+	old := vU32()
+	vAssume(old <= inc)
+	a := alive{Incarnation: old, Node: vSelf, Addr: me.Addr, Port: me.Port, Vsn: []uint8{me.PMin, me.PMax, me.PCur, me.DMin, me.DMax, me.DCur}}
+	if old == inc {
+		a.Meta = append([]byte(nil), me.Meta...) // the current announcement carries the current metadata
+	} else {
+		a.Meta = vBytes(vPick(2)) // an older announcement may carry older metadata
+	}
+	if vPick(2) == 1 {
+		m.mergeState([]pushNodeState{{Name: vSelf, Addr: a.Addr, Port: a.Port, Meta: a.Meta, Incarnation: old, State: StateAlive, Vsn: a.Vsn}})
+	} else {
+		m.aliveNode(&a, nil, false)
+	}
+	vAssert(m.GetHealthScore() == 0, "c04.self-alive.health-stays-zero")
+	vAssert(me.Incarnation == inc && m.incarnation.Load() == inc, "c04.self-alive.no-refutation")
+	vAssert(m.broadcasts.NumQueued() == 0, "c04.self-alive.nothing-gossiped")
+	vAssert(len(f.ev.log) == 0, "c04.self-alive.no-event")
+	vCover("c04.self-alive")
 }
